@@ -68,6 +68,72 @@ Theorem run_status_ok : forall ps chk names out,
 Proof. exact run_status_ok_proof. Qed.
 Print Assumptions run_status_ok.
 
+(* ---- runs restricted with --run / --skip: the "slices" of the quick tier ----
+   The quick tier executes, besides the unrestricted runs, runs of the SHIPPED reference configuration
+   restricted with --run patterns chosen by a covering computation.  For such a run the oracle predicts
+   exactly the expected permutations (those of the unrestricted run, predicted_names_spec) that some run
+   pattern globs and no skip pattern globs, still pairwise distinct; every pattern list is validated
+   against the whole space; and the announced total (filteredTestCount, counted on allPermutations) is
+   the number of names really sent by the batches. *)
+Theorem slice_names_spec : forall cfg ss cl sv ps rs sk pr total,
+  predicted_slice cfg ss cl sv ps rs sk = Good (pr, total) ->
+  (forall c, C06_Spec.spec_member cfg c -> In (C06_Model.c_protocol c) c07_all_protocols) ->
+  NoDup (pr_names pr) /\
+  (forall n, In n (pr_names pr) <->
+     (exists q, expected_perm cfg ss cl sv q /\ p_name q = n) /\
+     (rs = [] \/ C08_Spec.some_glob rs n) /\ ~ C08_Spec.some_glob sk n) /\
+  (forall n, In n (pr_checked pr) <-> exists q, expected_perm cfg ss cl sv q /\ p_name q = n) /\
+  (forall n, In n (pr_marked pr) <-> In n (pr_names pr) /\ C08_Spec.some_glob ps n) /\
+  total = length (pr_names pr).
+Proof. exact slice_names_spec_proof. Qed.
+Print Assumptions slice_names_spec.
+
+(* without --run / --skip the slice is the whole run *)
+Theorem slice_nil : forall cfg ss cl sv ps,
+  predicted_slice cfg ss cl sv ps [] [] =
+  match predicted_run cfg ss cl sv ps with
+  | Good pr => Good (pr, length (pr_checked pr))
+  | Bad e => Bad e
+  end.
+Proof. exact slice_nil_proof. Qed.
+Print Assumptions slice_nil.
+
+(* several restricted runs of one configuration predicted at once (what the quick tier evaluates: the
+   library is built once) are the single predictions *)
+Theorem slices_each : forall cfg ss cl sv ps sels l,
+  predicted_slices cfg ss cl sv ps sels = Good l ->
+  Forall2 (fun sel x => predicted_slice cfg ss cl sv ps (fst sel) (snd sel) = Good x) sels l.
+Proof. exact slices_each_proof. Qed.
+Print Assumptions slices_each.
+
+(* the verdict of a restricted run in which every sent case got an outcome: success IFF the pattern lists
+   pass the runner's validation against the whole space and every SENT permutation is listed exactly when
+   it ran and failed, unlisted exactly when it passed *)
+Theorem slice_ok_iff : forall ps rs sk chk names out,
+  NoDup names ->
+  (slice_ok ps rs sk chk names out = true <->
+     patterns_ok_sel ps rs sk chk = true /\
+     forall n, In n names ->
+       (C08_Spec.some_glob ps n <-> ran_and_failed (out n)) /\ (~ C08_Spec.some_glob ps n <-> passed (out n))).
+Proof. exact slice_ok_iff_proof. Qed.
+Print Assumptions slice_ok_iff.
+
+(* with the empty list of the reference pair: success IFF no run / skip pattern is reported unmatched and
+   every sent case passed *)
+Theorem slice_all_pass : forall rs sk chk names out,
+  NoDup names ->
+  (slice_ok [] rs sk chk names out = true <->
+     (rs = [] \/ C08_Model.unmatched (C08_Model.build rs) chk = []) /\
+     (sk = [] \/ C08_Model.unmatched (C08_Model.build sk) chk = []) /\
+     forall n, In n names -> passed (out n)).
+Proof. exact slice_all_pass_proof. Qed.
+Print Assumptions slice_all_pass.
+
+Theorem slice_status_ok : forall ps rs sk chk names out,
+  slice_status ps rs sk chk names out = 0 <-> slice_ok ps rs sk chk names out = true.
+Proof. exact slice_status_ok_proof. Qed.
+Print Assumptions slice_status_ok.
+
 (* ---- non-vacuity ---- *)
 (* testing/grpc-impls-config.yaml: HTTP/2, gRPC, proto, no TLS *)
 Definition grpc_cfg : C06_Model.config :=
@@ -148,3 +214,28 @@ Example ex_shadowed_pattern_rejected :
   run_status [bs "S/a"; bs "S/*"] [bs "S/a"] [bs "S/a"] fail_a = 2 /\
   (forall p, In p [bs "S/a"; bs "S/*"] -> C08_Model.match_pattern (C08_Model.build [p]) (bs "S/a") = true).
 Proof. split; [vm_compute; reflexivity|]. intros p [<-|[<-|[]]]; vm_compute; reflexivity. Qed.
+
+(* slices: a run pattern selects one row (plain and marked names), a skip pattern removes the marked one;
+   the total announced is the number sent; a run pattern that matches nothing is rejected (status 2);
+   a failing case outside the slice does not matter, one inside does *)
+Example ex_slice :
+  match predicted_slice grpc_cfg [s1; s2] true false [] [bs "Basic/Compression:COMPRESSION_GZIP/**"] [] with
+  | Good (pr, total) => (sort_names (pr_names pr), total, length (pr_checked pr))
+  | Bad _ => ([], 0%nat, 0%nat)
+  end =
+  ([ bs "Basic/Compression:COMPRESSION_GZIP/TLS:false/(grpc client impl)/unary/success";
+     bs "Basic/Compression:COMPRESSION_GZIP/TLS:false/unary/success" ], 2%nat, 6%nat).
+Proof. vm_compute. reflexivity. Qed.
+Example ex_slice_skip :
+  match predicted_slice grpc_cfg [s1; s2] true false [] [bs "Basic/Compression:COMPRESSION_GZIP/**"]
+                        [bs "**/(grpc client impl)/**"] with
+  | Good (pr, total) => (pr_names pr, total)
+  | Bad _ => ([], 0%nat)
+  end = ([ bs "Basic/Compression:COMPRESSION_GZIP/TLS:false/unary/success" ], 1%nat).
+Proof. vm_compute. reflexivity. Qed.
+Example ex_slice_unmatched_run_pattern : slice_status [] [bs "S/a"; bs "S/zzz"] [] nm [bs "S/a"] (fun _ => C04_Model.Ok) = 2.
+Proof. vm_compute. reflexivity. Qed.
+Example ex_slice_failure_outside : slice_ok [] [bs "S/b"] [] nm [bs "S/b"] fail_a = true.
+Proof. vm_compute. reflexivity. Qed.
+Example ex_slice_failure_inside : slice_ok [] [bs "S/a"] [] nm [bs "S/a"] fail_a = false.
+Proof. vm_compute. reflexivity. Qed.
